@@ -247,6 +247,15 @@ class Sample:
                 log.trace(f"[sam] ignoring {pos}: {ref}->{alt}")
                 return pos, None
 
+        def get_muts(pos, ref, alt):
+            if len(ref) == len(alt) and len(ref) > 1:  # multi-nucleotide substitution
+                return [
+                    get_mut(pos + i, ref[i], alt[i])
+                    for i in range(len(ref))
+                    if ref[i] != alt[i]
+                ]
+            return [get_mut(pos, ref, alt)]
+
         with pysam.VariantFile(vcf_path) as vcf:  # type: ignore
             self._prefix = chr_prefix(self.gene.chr, list(vcf.header.contigs))
 
@@ -265,38 +274,29 @@ class Sample:
                 g = sorted(y for y in read.samples[sample]["GT"] if y is not None)
                 if len(g) != 2 or self.gene[read.pos - 1] == "N":
                     continue  # ignore polyploid and incomplete cases
-                dump_arr = {}
                 if len(read.ref) == 1 and read.ref != self.gene[read.pos - 1]:
-                    hgvs = [(read.pos - 1, f"{self.gene[read.pos - 1]}>{read.ref}")]
+                    hgvs = [[(read.pos - 1, f"{self.gene[read.pos - 1]}>{read.ref}")]]
                 else:
-                    hgvs = [(read.pos - 1, "_")]
-                hgvs += [get_mut(read.pos - 1, read.ref, a) for a in read.alleles[1:]]
+                    hgvs = [[(read.pos - 1, "_")]]
+                hgvs += [get_muts(read.pos - 1, read.ref, a) for a in read.alleles[1:]]
                 for gt in g:
-                    pos, op = hgvs[gt]
-                    if op == "_" or op is None:  # reference or unsupported allele
-                        continue
-                    muts[pos, op] += [(40, 40)] * 10
-                    if not op.startswith("ins"):  # insertions keep the reference base
-                        norm[pos] = norm[pos][:-10]
-                    dump_arr[pos] = op
-
-                # Handle multi-SNPs
-                for pos, op in self._multi_sites.items():
-                    if pos not in dump_arr:
-                        continue
-                    l, r = op.split(">")
-                    if all(
-                        dump_arr.get(pos + p, "-") == f"{l[p]}>{r[p]}"
-                        for p in range(len(l))
-                        if l[p] != "."
-                    ):
-                        for p in range(len(l)):
-                            if l[p] != ".":
-                                np = pos + p, f"{l[p]}>{r[p]}"
-                                muts[np] = muts[np][:-10]
-                                if p:
-                                    norm[pos + p] += [(40, 40)] * 10
+                    for pos, op in hgvs[gt]:
+                        if op == "_" or op is None:  # reference or unsupported allele
+                            continue
                         muts[pos, op] += [(40, 40)] * 10
+                        if not op.startswith("ins"):  # insertions keep the reference base
+                            norm[pos] = norm[pos][:-10]
+
+            # Handle multi-SNPs (their parts can come from one or from adjacent records)
+            for pos, op in self._multi_sites.items():
+                l, r = op.split(">")
+                parts = [(pos + p, f"{l[p]}>{r[p]}") for p in range(len(l)) if l[p] != "."]
+                while all(len(muts.get(np, [])) >= 10 for np in parts):
+                    for np in parts:
+                        muts[np] = muts[np][:-10]
+                        if np[0] != pos:
+                            norm[np[0]] += [(40, 40)] * 10
+                    muts[pos, op] += [(40, 40)] * 10
         return norm, muts
 
     def _load_dump(self, dump_path: str):
